@@ -148,6 +148,49 @@ def run(ctx):
                 if got != rt.digest(f, data):
                     fails.append({"what": f"hash_file({size} bytes, {f}) = {got}, standard digest {rt.digest(f, data)}", "replay": {"entry": "hash_file", "size": size, "fmt": f, "data_hex": data.hex()}})
         dist["small_sizes"] = "0..300, all formats together + format pairs"
+        # ---- a storage fault in the middle of a file (a short read, then one EIO): the run may fail with the error, but
+        # whatever digest is RETURNED is the digest of all the bytes
+        import builtins, io, errno
+
+        class FlakyRaw(io.FileIO):
+            def __init__(self, *a, fail_at=2, **k):
+                super().__init__(*a, **k)
+                self.calls, self.fail_at = 0, fail_at
+
+            def readinto(self, b):
+                self.calls += 1
+                if self.calls == self.fail_at - 1:
+                    return super().readinto(memoryview(b)[:4096])
+                if self.calls == self.fail_at:
+                    raise OSError(errno.EIO, "Input/output error (injected)")
+                return super().readinto(b)
+
+        fp3 = os.path.join(root, "flaky.bin")
+        data3 = rnd.randbytes(3 * MiB + 77)
+        with open(fp3, "wb") as f:
+            f.write(data3)
+        real_open = builtins.open
+        for fail_at in (2, 3, 5):
+            def flaky_open(file, mode="r", *a, _fa=fail_at, **k):
+                if mode == "rb" and isinstance(file, str) and os.path.abspath(file) == fp3:
+                    return io.BufferedReader(FlakyRaw(file, "rb", fail_at=_fa), buffer_size=k.get("buffering", -1) if k.get("buffering", -1) > 0 else io.DEFAULT_BUFFER_SIZE)
+                return real_open(file, mode, *a, **k)
+            for entry, call in (("hash_file", lambda: {"md5": Hh.hash_file(fp3, "md5")}), ("multiple_format_hash_file", lambda: Hh.multiple_format_hash_file(fp3, ["md5", "xxh64"]))):
+                builtins.open = flaky_open
+                try:
+                    got = call()
+                except OSError:
+                    got = None  # failing loudly is fine
+                except Exception as e:
+                    got = None
+                    ctx.notes.append(f"{entry} under an injected read error raised {e!r}")
+                finally:
+                    builtins.open = real_open
+                evals += 1
+                for f_, v in (got or {}).items():
+                    if v != rt.digest(f_, data3):
+                        fails.append({"what": f"{entry}({len(data3)} bytes, {f_}) with one injected read error (short read, then EIO at raw read #{fail_at}) RETURNS {v}, the digest of the bytes is {rt.digest(f_, data3)}", "replay": {"entry": entry, "fault": "short read then EIO", "fail_at": fail_at, "size": len(data3)}})
+        dist["fault_injection"] = "short read followed by one EIO at raw read 2/3/5"
         # ---- streaming use of a hasher object: digests may be taken at any time and never disturb the state
         for fmt in ALL_FORMATS:
             for _ in range(ctx.scale(6, 60)):
